@@ -266,6 +266,7 @@ def _c04_tiny():
     sp = importlib.util.spec_from_file_location("c04t", os.path.join(os.path.dirname(__file__), "C04.py")); m = importlib.util.module_from_spec(sp); sp.loader.exec_module(m)
     import copy as _copy
     out = [_copy.deepcopy(m.TINY_GS)]
+    v = _copy.deepcopy(m.RR_UNIT); v["name"] = "c01_rrtstar_report"; out.append(v)      # RRT*'s reporting block (unit of C04): path, approximate flag, status
     for u in m.UNITS:           # which stored solution the problem definition reports (flags, difference): the solution-set unit of C04
         if u["name"] == "c04_solution_set":
             v = _copy.deepcopy(u); v["name"] = "c01_solution_set"; out.append(v)
